@@ -1355,6 +1355,256 @@ def oracle_dyn(case, out):
 
 
 
+# ------------------------------------------------------------------------------------------------
+# a global read through subviews behind layout casts ("subg": ApplyLayoutCastSubviewGlobal)
+# ------------------------------------------------------------------------------------------------
+# memref.global (initialised or not) -> get_global -> 1..3 subviews (tiles) -> [memory_space_cast ->] layout_cast to the
+# tile layout (dense or padded tsl) -> consumer; further subviews / the get_global itself may be consumed directly. The
+# lowered module is executed on flat memories: a subview addresses, inside the storage of its source, the elements it
+# selects (address = layout of the SOURCE type at offset + index * stride). Clauses: every consumer reads the logical
+# elements of the global that its subview selects; the layout DECLARED by the type of every consumed / copied value
+# describes where its elements really are (up to the base address); a re-laid-out global does not map two elements to
+# one address.
+
+def gen_subg(rng):
+    rank = rng.choice([1, 2, 2, 2])
+    tb = [[rng.choice([2, 2, 3, 4]) for _ in range(rng.choice([1, 1, 2]))] for _ in range(rank)]
+    pos = [(d, k) for d in range(rank) for k in range(len(tb[d]))]
+    rng.shuffle(pos)
+    pad = rng.random() < 0.35
+    cur, step = 1, {}
+    for (d, k) in pos:
+        step[(d, k)] = cur
+        cur *= tb[d][k]
+        if pad and rng.random() < 0.5:
+            cur += rng.choice([1, 2, 3, 8])  # padding behind this stride
+    ts = [[[step[(d, k)], tb[d][k]] for k in range(len(tb[d]))] for d in range(rank)]
+    tile = shape_of(ts)
+    ntiles = [rng.choice([1, 2, 2, 3, 4]) for _ in range(rank)]
+    shape = [t * n for t, n in zip(tile, ntiles)]
+    if rng.random() < 0.08:
+        shape[rng.randrange(rank)] += rng.randrange(1, tile[0] + 1)  # the shape is not a whole number of tiles
+    nsub = rng.choice([1, 1, 1, 2, 2, 3])
+    subs = []
+    for i in range(nsub):
+        off = [rng.randrange(n) * t for n, t in zip(ntiles, tile)]
+        if rng.random() < 0.06:
+            d = rng.randrange(rank)
+            off[d] = min(off[d] + 1, shape[d] - tile[d])  # not aligned to the tiles
+        subs.append({"off": off, "cast": i == 0 or rng.random() < 0.6, "chain": rng.random() < 0.4})
+    n = 1
+    for x in shape:
+        n *= x
+    init = rng.random() < 0.6
+    el = rng.choice(["i8", "i32"])
+    hi = 1 << (ELTS[el] - 1)
+    return {"kind": "subg", "ts": ts, "tile": tile, "shape": shape, "subs": subs, "el": el, "direct_use": rng.random() < 0.1,
+            "data": [i % hi for i in range(n)] if init else None}
+
+
+def subg_src(case):
+    shape, tile, el = case["shape"], case["tile"], case["el"]
+    sh = "x".join(str(x) for x in shape)
+    tl = "x".join(str(x) for x in tile)
+    lay = f"#tsl.tsl<{layout_text(case['ts'], 0)}>"
+    rs = []
+    acc = 1
+    for x in reversed(shape):
+        rs.insert(0, acc)
+        acc *= x
+    g0 = f"memref<{sh}x{el}>"
+    init = "initial_value" if case["data"] is None else \
+        f"initial_value = dense<{nested_literal(case['data'], shape)}> : tensor<{sh}x{el}>"
+    lines = [f'    %g = "memref.get_global"() <{{name = @g}}> : () -> {g0}']
+    for i, sv in enumerate(case["subs"]):
+        lin = sum(o * r for o, r in zip(sv["off"], rs))
+        ts_ = f"memref<{tl}x{el}, strided<[{', '.join(str(r) for r in rs)}], offset: {lin}>>"
+        lines.append(f"    %s{i} = memref.subview %g[{', '.join(str(o) for o in sv['off'])}] [{', '.join(str(t) for t in tile)}] "
+                     f"[{', '.join('1' for _ in tile)}] : {g0} to {ts_}")
+        v, vt = f"%s{i}", ts_
+        if sv["cast"]:
+            if sv["chain"]:
+                t1 = ts_[:-1] + ', "L1">'
+                lines.append(f'    %m{i} = "memref.memory_space_cast"({v}) : ({vt}) -> {t1}')
+                t2 = f'memref<{tl}x{el}, {lay}, "L1">'
+                lines.append(f'    %c{i} = "snax.layout_cast"(%m{i}) : ({t1}) -> {t2}')
+            else:
+                t2 = f"memref<{tl}x{el}, {lay}>"
+                lines.append(f'    %c{i} = "snax.layout_cast"({v}) : ({vt}) -> {t2}')
+            v, vt = f"%c{i}", t2
+        lines.append(f'    "test.op"({v}) {{consumer = {i}}} : ({vt}) -> ()')
+    if case["direct_use"]:
+        lines.append(f'    "test.op"(%g) {{consumer = 99}} : ({g0}) -> ()')
+    body = "\n".join(lines)
+    return f"""builtin.module {{
+  "memref.global"() <{{sym_name = "g", type = {g0}, {init}, sym_visibility = "private"}}> : () -> ()
+  func.func @f() {{
+{body}
+    func.return
+  }}
+}}
+"""
+
+
+def type_addr_fn(t):
+    """logical index -> storage offset according to the layout the type declares (own arithmetic)"""
+    from xdsl.dialects import builtin
+    from snaxc.dialects.tsl import TiledStridedLayoutAttr
+    shape = list(t.get_shape())
+    lay = t.layout
+    if isinstance(lay, builtin.NoneAttr):
+        def f(idx):
+            a = 0
+            for i, n in zip(idx, shape):
+                a = a * n + i
+            return a
+        return f
+    if isinstance(lay, builtin.StridedLayoutAttr):
+        strides, off = lay.get_strides(), lay.get_offset() or 0
+        return lambda idx: off + sum(i * st for i, st in zip(idx, strides))
+    if isinstance(lay, TiledStridedLayoutAttr):
+        ts = [[(st.step, st.bound) for st in t_.strides] for t_ in lay.data.tstrides]
+        off = lay.data.offset or 0
+        # the outermost digit of a dimension is not reduced (tsl semantics; matters for shapes beyond the tiles)
+        def f(idx):
+            a = off
+            for t_, i in zip(ts, idx):
+                for k, (st, b) in enumerate(t_):
+                    inner = 1
+                    for _, b2 in t_[k + 1:]:
+                        inner *= b2
+                    a += st * ((i // inner) if k == 0 else (i // inner) % b)
+            return a
+        return f
+    raise NotImplementedError(str(lay))
+
+
+def impl_subg(case):
+    from xdsl.dialects import builtin, func, memref
+    from snaxc.dialects.snax import LayoutCast
+    from snaxc.dialects.tsl import TiledStridedLayoutAttr
+    import warnings
+    src = subg_src(case)
+    try:
+        snaxrun.parse(src).verify()
+    except Exception as e:
+        return {"invalid_input": f"{type(e).__name__}: {str(e)[:100]}"}
+    with warnings.catch_warnings():
+        warnings.simplefilter("ignore")
+        m = snaxrun.parse(snaxrun.run_passes(src, "realize-memref-casts"))
+    m.verify()
+    res = {"fires": False, "global_ts": None, "global_data": None, "problems": [], "consumers": {}}
+    gmem, gtype = {}, {}
+    for op in m.walk():
+        if isinstance(op, memref.GlobalOp):
+            name = op.sym_name.data
+            gtype[name] = op.type
+            if isinstance(op.initial_value, builtin.DenseIntOrFPElementsAttr):
+                vals = [int(v) for v in op.initial_value.get_values()]
+                gmem[name] = dict(enumerate(vals))
+            else:
+                gmem[name] = {}
+                vals = "uninitialised"
+            if name == "g_transformed":
+                res["fires"] = True
+                res["global_data"] = vals
+                lay = op.type.layout
+                if isinstance(lay, TiledStridedLayoutAttr):
+                    res["global_ts"] = [[[st.step, st.bound] for st in t_.strides] for t_ in lay.data.tstrides]
+                # a re-laid-out global must not map two of its elements to one address
+                fn = type_addr_fn(op.type)
+                idxs = list(itertools.product(*[range(n) for n in op.type.get_shape()]))
+                addrs = [fn(i) for i in idxs]
+                if len(set(addrs)) != len(addrs):
+                    seen_at = {}
+                    for i, a in zip(idxs, addrs):
+                        if a in seen_at:
+                            res["problems"].append(f"the re-laid-out global maps elements {list(seen_at[a])} and {list(i)} to the same address {a}")
+                            break
+                        seen_at[a] = i
+    views = {}  # value -> (memory, [(logical index of the GLOBAL or None, address)] in row-major order of the value's indices)
+
+    def declared_ok(v, addrs):
+        fn = type_addr_fn(v.type)
+        idxs = list(itertools.product(*[range(n) for n in v.type.get_shape()]))
+        decl = [fn(i) for i in idxs]
+        return all(d - decl[0] == a - addrs[0] for d, a in zip(decl, addrs))
+
+    f = [o for o in m.walk() if isinstance(o, func.FuncOp)][0]
+    for op in f.body.block.ops:
+        if isinstance(op, memref.GetGlobalOp):
+            name = op.name_.root_reference.data
+            fn = type_addr_fn(op.memref.type)
+            idxs = list(itertools.product(*[range(n) for n in op.memref.type.get_shape()]))
+            views[op.memref] = (gmem[name], [(i, fn(i)) for i in idxs], {i: k for k, i in enumerate(idxs)})
+        elif isinstance(op, memref.SubviewOp):
+            mem, ent, where = views[op.source]
+            offs = op.static_offsets.get_values()
+            sizes = op.static_sizes.get_values()
+            strs = op.static_strides.get_values()
+            idxs = list(itertools.product(*[range(n) for n in sizes]))
+            sel = [tuple(o + i * st for o, i, st in zip(offs, idx, strs)) for idx in idxs]
+            views[op.result] = (mem, [ent[where[g]] for g in sel], {i: k for k, i in enumerate(idxs)})
+        elif isinstance(op, memref.AllocOp):
+            fn = type_addr_fn(op.memref.type)
+            idxs = list(itertools.product(*[range(n) for n in op.memref.type.get_shape()]))
+            views[op.memref] = ({}, [(None, fn(i)) for i in idxs], {i: k for k, i in enumerate(idxs)})
+        elif isinstance(op, (memref.MemorySpaceCastOp, LayoutCast)):
+            if isinstance(op, LayoutCast) and op.dest.uses.get_length():
+                res["problems"].append("a layout cast with uses survived the pass")
+            views[op.results[0]] = views[op.operands[0]]
+        elif isinstance(op, memref.CopyOp):
+            sm, se, _ = views[op.source]
+            dm, de, _ = views[op.destination]
+            if not declared_ok(op.source, [a for _, a in se]):
+                res["problems"].append(f"the type of the source of a copy ({op.source.type.layout}) does not describe where its elements are")
+            vals = [(g, sm.get(a, "uninit")) for g, a in se]
+            views[op.destination] = (dm, [(g, a) for (g, _), (_, a) in zip(vals, de)], views[op.destination][2])
+            for (g, v_), (_, a) in zip(vals, de):
+                dm[a] = v_
+        elif op.name == "test.op":
+            v = op.operands[0]
+            mem, ent, _ = views[v]
+            k = op.attributes["consumer"].value.data
+            if not declared_ok(v, [a for _, a in ent]):
+                res["problems"].append(f"the type of the operand of consumer {k} ({v.type.layout}) does not describe where its elements are")
+            res["consumers"][str(k)] = [[list(g) if g is not None else None, mem.get(a, "uninit")] for g, a in ent]
+    return res
+
+
+def oracle_subg(case, out):
+    if "raised" in out or "invalid_input" in out:
+        return []
+    tags = subg_known(case)
+    v = [{"what": p, "finding": tags} for p in out["problems"]]
+    if case["data"] is not None:
+        shape = case["shape"]
+        for k, ent in out["consumers"].items():
+            for g, val in ent:
+                lin = 0
+                for i, n in zip(g, shape):
+                    lin = lin * n + i
+                if val != case["data"][lin]:
+                    v.append({"what": f"consumer {k} reads {val} for element {g} of the global (= {case['data'][lin]})", "finding": tags})
+                    break
+    return v[:4]
+
+
+def subg_known(case):
+    """inputs on which the unchanged code is known to go wrong (finding id) - see known_findings.d/C12.json"""
+    if any(o % t for sv in case["subs"] for o, t in zip(sv["off"], case["tile"])):
+        return "DC12e"  # a subview that does not start at a tile boundary
+    if any(n % t for n, t in zip(case["shape"], case["tile"])):
+        return "DC12f"  # the global is not a whole number of tiles
+    return None
+
+
+def subg_fires_pre(case):
+    """the syntactic part of the guard of ApplyLayoutCastSubviewGlobal: the get_global has one use, a subview behind a cast"""
+    return len(case["subs"]) == 1 and not case["direct_use"] and case["subs"][0]["cast"]
+
+
+
 # -- syntactic clauses of the partial theorem, evaluated on the generated program (harness side) ---------
 
 def classify(case):
@@ -1428,7 +1678,7 @@ class C12(Prop):
 
     def cases(self, rng, tier):
         q = tier == "quick"
-        for _ in range(400 if q else 5000):
+        for _ in range(300 if q else 5000):
             yield gen_const(rng, big=not q)
         for i, c in enumerate(perm_cases(2 if q else 3)):
             yield c
@@ -1438,13 +1688,15 @@ class C12(Prop):
             yield gen_pipe(rng, big=not q)
         for _ in range(150 if q else 2500):
             yield gen_dyn(rng)
+        for _ in range(250 if q else 4000):
+            yield gen_subg(rng)
         for _ in range(60 if q else 1500):
             cols, rows = rng.randint(0, 6), rng.randint(0, 6)
             n = cols * rows + (rng.choice([-1, 1, 2]) if rng.random() < 0.1 else 0)
             yield {"kind": "transpose", "a": [rng.randrange(-100, 100) for _ in range(max(n, 0))], "cols": cols, "rows": rows}
         for _ in range(250 if q else 4000):
             yield gen_memspace(rng)
-        for _ in range(900 if q else 15000):
+        for _ in range(700 if q else 15000):
             yield gen_realize(rng, big=not q)
 
     # -- real code ------------------------------------------------------------------------
@@ -1458,6 +1710,8 @@ class C12(Prop):
             return impl_pipe(case)
         if k == "dyn":
             return impl_dyn(case)
+        if k == "subg":
+            return impl_subg(case)
         if k == "transpose":
             from snaxc.transforms.frontend.remove_transpose_constants import RemoveTransposeConstants
             return {"out": list(RemoveTransposeConstants().transpose_tuple(tuple(case["a"]), case["cols"], case["rows"]))}
@@ -1476,6 +1730,9 @@ class C12(Prop):
             return [{"fn": "c12.assignCasts", "args": {"fixed": FIX_C, "body": pipe_model_body(case)}}]
         if k == "dyn":
             return [{"fn": "c12.standIn", "args": {"shape": case["shape"], "rt": case["rt"]}}]
+        if k == "subg":
+            return [{"fn": "c12.subviewGlobal", "args": {"layout": {"ts": case["ts"], "offset": 0}, "shape": case["shape"],
+                                                         "data": case["data"], "refuse_offset": FIX_D}}]
         if k in ("const", "glob"):
             return [{"fn": "c12.transformConstant", "args": {"data": case["data"], "refuse_offset": FIX_D,
                                                              "layout": {"ts": case["ts"], "offset": case["offset"]}}}]
@@ -1506,6 +1763,21 @@ class C12(Prop):
         k = case["kind"]
         if "invalid_input" in impl_out:
             return impl_out
+        if k == "subg":
+            a = answers[0]
+            if "err" in a:
+                return {"model_error": a["err"]}
+            r = a["ok"]
+            no = {"fires": False, "global_ts": None, "global_data": None}
+            if not subg_fires_pre(case):
+                return no
+            if case["data"] is None:
+                return {"fires": True, "global_ts": r["layout"], "global_data": "uninitialised"}
+            if isinstance(r["data"], dict) and "raised" in r["data"]:
+                return {"raised": r["data"]["raised"]}
+            if r["data"] is None:
+                return no  # transform_constant refuses the layout: the cast is realised with a copy
+            return {"fires": True, "global_ts": r["layout"], "global_data": r["data"]}
         if k == "dyn":
             a = answers[0]
             if "err" in a:
@@ -1571,6 +1843,11 @@ class C12(Prop):
             if isinstance(model_out, dict) and model_out.get("raised") == impl_out["raised"]:
                 return None
             return "the real code raised, the model did not (or another exception)"
+        if case["kind"] == "subg" and "fires" in impl_out:
+            for key in ("fires", "global_ts", "global_data"):
+                if canon_json(impl_out[key]) != canon_json(model_out.get(key, "?")):
+                    return f"ApplyLayoutCastSubviewGlobal: {key} differs from the model (subviewGlobalLayout / transformConstant)"
+            return None
         if case["kind"] == "pipe":
             # model side: where set-memory-space puts / re-uses the L1 casts; the lowering as a whole is judged by the oracle
             if "casts" in impl_out and canon_json(impl_out["casts"]) != canon_json(model_out.get("casts")):
@@ -1619,6 +1896,8 @@ class C12(Prop):
             return oracle_pipe(case, out)
         if k == "dyn":
             return oracle_dyn(case, out)
+        if k == "subg":
+            return oracle_subg(case, out)
         if k == "transpose":
             a, cols, rows = case["a"], case["cols"], case["rows"]
             o = out["out"]
@@ -1653,6 +1932,8 @@ class C12(Prop):
             return "for" in str(case["body"])
         if k == "dyn":
             return None in case["shape"]
+        if k == "subg":
+            return bool(out.get("fires")) or len(case["subs"]) > 1
         if k == "transpose":
             return case["cols"] > 1 and case["rows"] > 1
         if k == "memspace":
@@ -1669,6 +1950,8 @@ class C12(Prop):
             return f"glob:{case.get('root', 'init')}:{case.get('form')}:{'none' if out.get('out') is None else 'transformed'}"
         if k == "const":
             return f"{k}:{'none' if out.get('out') is None else 'transformed'}"
+        if k == "subg" and "fires" in out:
+            return f"subg:{'fires' if out['fires'] else 'copy'}:{'init' if case['data'] is not None else 'uninit'}:{len(case['subs'])}sub"
         if k == "dyn":
             sh = case["shape"]
             late = any(x is None and any(y is not None for y in sh[:i]) for i, x in enumerate(sh))
